@@ -67,6 +67,47 @@ static std::string dir_policy(Rng &r, int bad_pct) {
   return p[r.below(5)];
 }
 
+// ---- C06: systematic enumeration of single and paired failure positions ----------
+// The region-allocation chain tries XDG_RUNTIME_DIR, HOME, TMPDIR, /tmp (each:
+// mkstemp, ftruncate, exec mmap, write mmap) and finally an anonymous RWX map.
+// An enumerated cell is: the first d directories are persistently broken in one
+// of three ways, one transient fault hits a chosen stage of the first healthy
+// step, and optionally a second transient fault hits a chosen stage of the step
+// after it; in the init probe or in the first compile.
+struct EnumCell { int d, broken, stage1, stage2, phase; };
+static const int kEnumCells = 5 * 3 * 4 * 5 * 2;  // d x broken x stage1 x (none + 4 stage2) x phase
+static EnumCell enum_cell(uint64_t idx) {
+  EnumCell e;
+  e.phase = idx % 2; idx /= 2;
+  e.stage2 = (int)(idx % 5) - 1; idx /= 5;
+  e.stage1 = idx % 4; idx /= 4;
+  e.broken = idx % 3; idx /= 3;
+  e.d = idx % 5;
+  return e;
+}
+static void enum_plan_bits(const EnumCell &e, std::string &dirs, std::string &faults) {
+  static const char *bk[] = {"missing", "noexec", "full"};
+  const char *dn[] = {"xdg", "home", "tmpdir", "tmp"};
+  dirs = "dirs";
+  for (int i = 0; i < 4; i++) dirs += strf(" %s=%s", dn[i], i < e.d ? bk[e.broken] : "ok");
+  dirs += " execmem=1";
+  // calls consumed by the broken directories
+  int mk = std::min(e.d, 4), ft = e.broken == 0 ? 0 : std::min(e.d, 4), mm = e.broken == 1 ? std::min(e.d, 4) : 0;
+  static const char *errs[4] = {"EACCES", "ENOSPC", "EPERM", "ENOMEM"};
+  auto add = [&](int stage, bool file_step) {
+    if (!file_step) { faults += strf(" fault=mmap:%d:%s", mm, "EACCES"); mm++; return; }  // the anonymous map
+    switch (stage) {
+      case 0: faults += strf(" fault=mkstemp:%d:%s", mk, errs[0]); mk++; break;
+      case 1: faults += strf(" fault=ftruncate:%d:%s", ft, errs[1]); mk++; ft++; break;
+      case 2: faults += strf(" fault=mmap:%d:%s", mm, errs[2]); mk++; ft++; mm++; break;
+      default: faults += strf(" fault=mmap:%d:%s", mm + 1, errs[3]); mk++; ft++; mm += 2; break;
+    }
+  };
+  faults.clear();
+  add(e.stage1, e.d < 4);
+  if (e.stage2 >= 0 && e.d < 4) add(e.stage2, e.d + 1 < 4);
+}
+
 static std::vector<std::string> hist_gen(const GenArgs &ga) {
   std::vector<std::string> pl;
   Rng sw = stream(ga.seed, ST_SWARM), pr = stream(ga.seed, ST_PLAN), fr = stream(ga.seed, ST_FAULT),
@@ -154,6 +195,14 @@ static std::vector<std::string> hist_gen(const GenArgs &ga) {
   }
   dirs += strf(" tmp=%s", jit_impossible ? "noexec" : dir_policy(sw, bad_dir_pct).c_str());
   dirs += strf(" execmem=%d", jit_impossible ? 0 : (bad_dir_pct && sw.chance(1, 3)) ? 0 : 1);
+  bool enumerated = P == "C06" && ga.index < (uint64_t)kEnumCells;
+  EnumCell cell = enum_cell(ga.index);
+  std::string enum_faults;
+  if (enumerated) {
+    enum_plan_bits(cell, dirs, enum_faults);
+    orc_code = sw.chance(1, 5) ? "debug" : "-";   // modes in which the chain actually runs
+    faults = true;
+  }
   std::string backend_env = "-";
   if ((P == "C16" || P == "C06") && sw.chance(1, 5)) {
     static const char *be[] = {"sse", "avx", "mmx", "c", "nosuch"};
@@ -182,7 +231,15 @@ static std::vector<std::string> hist_gen(const GenArgs &ga) {
   }
 
   // init, possibly under faults
-  {
+  if (enumerated) {
+    pl.push_back(cell.phase == 0 ? "init" + enum_faults : std::string("init"));
+    // the first compile creates the first region: the chain runs again, with live objects around it later
+    pl.push_back(strf("op new spec=%s backup=%d", gen_spec(pr, 6, 8, false, false).c_str(), (int)(ga.index / 2 % 2)));
+    pl.push_back("op compile p=0 target=default fmask=0xffffffff" + (cell.phase == 1 ? enum_faults : std::string()));
+    pl.push_back(strf("op run p=0 mode=exec n=0 ds=%llu", (unsigned long long)(dr.next() >> 20)));
+    pl.push_back("op take p=0");
+    pl.push_back(strf("op runc c=0 mode=exec n=0 ds=%llu", (unsigned long long)(dr.next() >> 20)));
+  } else {
     std::string l = "init";
     if (faults && fr.chance(1, 2)) {
       int nf = 1 + (int)fr.below(2);
@@ -682,6 +739,8 @@ static void hist_run(const std::vector<std::string> &plan, Child &c) {
           _orc_compiler_flag_backup, _orc_compiler_flag_emulate);
   c.count("fault.fired", ist.fired);
   c.count("fault.policy_failures", ist.policy_failures);
+  for (auto &fp : ist.fired_positions) c.count("faultpos.init." + fp);
+  if (ist.fired_positions.size() == 2) c.count("faultpair.init." + ist.fired_positions[0] + "+" + ist.fired_positions[1]);
   bool code_has_be = st.orc_code.find("backup") != std::string::npos || st.orc_code.find("emulate") != std::string::npos;
   if (!code_has_be) {
     bool probe_ok = ist.trace.find("mmap(w)=ok") != std::string::npos || ist.trace.find("mmap(anon)=ok") != std::string::npos;
@@ -741,6 +800,8 @@ static void hist_run(const std::vector<std::string> &plan, Child &c) {
         fs::OpStats os = fs::end_op();
         c.count("fault.fired", os.fired);
         c.count("fault.policy_failures", os.policy_failures);
+        for (auto &fp : os.fired_positions) c.count("faultpos.compile." + fp);
+        if (os.fired_positions.size() == 2) c.count("faultpair.compile." + os.fired_positions[0] + "+" + os.fired_positions[1]);
         c.count("compile.total");
         if (os.fired || os.policy_failures) c.count("compile.under_fault");
         if (!os.trace.empty()) { c.count("compile.created_region_attempt"); c.state(fnv(os.trace)); }
